@@ -508,6 +508,8 @@ func (jf *JSONFamily) Install() {
 			jf.installArrayOuter(f, jt)
 		case f.Name() == "UnmarshalJSON" && ptr && isArr:
 			jf.installArrayUnOuter(f, jt)
+		case f.Name() == "unmarshalJSONInnerBody" && ptr && isArr:
+			jf.installArrayUnInner(f, jt)
 		case f.Name() == "marshalJSONInnerBody" && !ptr && isStruct && jt.Schema.IsObjectLike():
 			jf.installInner(f, jt)
 			for _, g := range f.AnonFuncs {
@@ -1068,26 +1070,63 @@ func (jf *JSONFamily) installArrayUnOuter(f *ssa.Function, jt *jsonType) {
 		e.needUn()
 		return []NamedFormula{{Name: "fresh-receiver", Props: []string{"C06", "C08"}, Formula: and(not(eq(args[0], "0")), jf.zeroReceiver(e, e.cur, args[0], T))}}
 	}
-	spec := func(e *FuncEnc, cptr, bs, err string, post *state) []NamedFormula {
+	spec := func(e *FuncEnc, cptr, bs, err string, post *state, goal bool) []NamedFormula {
 		e.needUn()
 		d := sx("rawdoc", bs)
 		okk := eq(sx("if_tag", err), "0")
 		ef, vf := e.udecFns(T)
-		return []NamedFormula{
+		out := []NamedFormula{
 			{Name: "ensures#strict-array", Props: []string{"C08"}, Formula: implies(and(not(sx("docNull", d)), not(eq(sx("docKind", d), "2"))), not(okk))},
-			{Name: "def#udec", Formula: and(eq(okk, not(sx(ef, d))), implies(okk, eq(e.load(post, cptr, T), sx(vf, d))))},
 		}
+		elemT := T.Underlying().(*types.Slice).Elem()
+		if fl, vl, problem := jf.decodeSpec(e, "(docItem "+d+" qi)", "(doc_rawitem "+d+" qi)", elemT, jt.Schema.Items); problem == "" {
+			e.D.UF("docLen", []string{"Doc"}, "Int")
+			e.D.UF("docItem", []string{"Doc", "Int"}, "Doc")
+			e.D.UF("doc_rawitem", []string{"Doc", "Int"}, "Slice")
+			e.D.Axiom("doc_rawitem", "(forall ((d Doc) (i Int)) (! (and (= (rawdoc (doc_rawitem d i)) (docItem d i)) (> (sl_base (doc_rawitem d i)) 0)) :pattern ((doc_rawitem d i))))")
+			res := e.load(post, cptr, T)
+			rb, ro := constOf(e, "ua_rb", "Int", sx("sl_base", res)), constOf(e, "ua_ro", "Int", sx("sl_off", res))
+			// keyed by the absolute cell index ra of the result; the item index is ra - ro
+			flQ := fl
+			fl = strings.ReplaceAll(fl, " qi)", " (- ra "+ro+"))")
+			vl = strings.ReplaceAll(vl, " qi)", " (- ra "+ro+"))")
+			got := e.load(post, sx("elem", rb, "ra"), elemT)
+			n := ite(sx("docNull", d), "0", sx("docLen", d))
+			out = append(out,
+				NamedFormula{Name: "ensures#items-decoded", Props: []string{"C08", "C06"}, Formula: implies(okk, and(eq(sx("sl_len", res), n),
+					skolemIf(e, goal, "ra", fmt.Sprintf("(=> (and (<= %s ra) (< ra (+ %s %s))) (and (not %s) %s))", ro, ro, n, fl, jf.sameDecoded(e, got, vl, elemT)), sx("elem", rb, "ra"))))},
+				NamedFormula{Name: "ensures#rejects-only-faulty", Props: []string{"C08"}, Formula: implies(not(okk), or(sx(e.rawListErrFn(), d), fmt.Sprintf("(exists ((qi Int)) (and (<= 0 qi) (< qi %s) %s))", n, flQ)))})
+		}
+		out = append(out, NamedFormula{Name: "def#udec", Formula: and(eq(okk, not(sx(ef, d))), implies(okk, eq(e.load(post, cptr, T), sx(vf, d))))})
+		return out
 	}
 	c.RetHook = func(e *FuncEnc, results []string) []NamedFormula {
-		return spec(e, e.val[f.Params[0]], e.val[f.Params[1]], results[0], e.cur)[:1]
+		var out []NamedFormula
+		for _, nf := range spec(e, e.val[f.Params[0]], e.val[f.Params[1]], results[0], e.cur, true) {
+			if !strings.HasPrefix(nf.Name, "def#") {
+				out = append(out, nf)
+			}
+		}
+		return pruneByReturn(e, out)
 	}
 	c.PostHook = func(e *FuncEnc, args, results []string, pre, post *state) []NamedFormula {
-		fs := spec(e, args[0], args[1], results[0], post)
+		fs := spec(e, args[0], args[1], results[0], post, false)
 		e.Assumed["the outcome of UnmarshalJSON on a fresh receiver is a function of the document (uerr_T, udec_T name it)"] = true
 		return append(fs, jf.receiverFrame(e, args[0], T, pre, post)...)
 	}
 	c.Modifies = jf.receiverKeys(T, nil)
 	jf.Em.W.Contracts[f.String()] = c
+}
+
+// skolemIf: a universally quantified clause over an Int variable: as an
+// assumption the quantifier with its trigger, as a proof goal the body for a
+// fresh constant (explicit skolemisation keeps the trigger terms ground).
+func skolemIf(e *FuncEnc, goal bool, v, body, trigger string) string {
+	if goal {
+		sk := e.newSym("sk_"+v, "Int")
+		return replaceVar(body, v, sk)
+	}
+	return fmt.Sprintf("(forall ((%s Int)) (! %s :pattern (%s)))", v, body, trigger)
 }
 
 // ---------------------------------------------------------------- oneOf components (encoding)
